@@ -19,6 +19,7 @@ typedef struct {
     int      emcy;    uint32_t emcy_id; int hist;                         /* 1014h, 1003h depth (0 = absent)     */
     int      n_rpdo;  struct { int present; uint32_t cobid; uint8_t type; uint8_t nmap; uint32_t map[8]; int nomap; } rpdo[4];
     int      n_tpdo;  struct { int present; uint32_t cobid; uint8_t type; uint16_t inhibit, event; uint8_t nmap; uint32_t map[8]; int nomap; } tpdo[4];
+    int      para;                                                       /* 1010h:1 = communication parameter group holding 1017h, stored at NVM offset 40h */
     int      sdo_srv; int csdo; int sdo_dyn;                             /* sdo_dyn: 1200h:1/:2 writable with the SDO-id type */
     int      sync_no_cycle;                                                /* 1005h without 1006h */
     int      operational;                                                 /* enter OPERATIONAL after start       */
@@ -46,6 +47,7 @@ static uint16_t    TpInh[4], TpEvt[4];
 static uint8_t     A8, P8, B8[8];
 static uint16_t    A16, P16, W16[4];
 static uint32_t    A32, P32, N32, R32, W32;
+static CO_PARA     NcPara; static uint16_t HbDefault;
 static uint32_t    CsdoCobTx, CsdoCobRx; static uint8_t CsdoNode;
 static uint32_t    Csdo2CobTx, Csdo2CobRx; static uint8_t Csdo2Node;
 static uint32_t    SsdoRx, SsdoTx;
@@ -108,6 +110,14 @@ static void nc_prepare(void)
         }
     }
     if (NC.hbprod) { HbTime = NC.hb_time; od_add(&b, CO_KEY(0x1017, 0, CO_OBJ_____RW), CO_THB_PROD, (CO_DATA)&HbTime); }
+    if (NC.para) {
+        HbDefault = NC.hb_time;
+        NcPara.Offset = 0x40; NcPara.Size = sizeof HbTime; NcPara.Start = (uint8_t *)&HbTime; NcPara.Default = (uint8_t *)&HbDefault;
+        NcPara.Type = CO_RESET_COM; NcPara.Ident = (void *)"com"; NcPara.Value = CO_PARA___E;
+        od_add(&b, CO_KEY(0x1010, 0, CO_OBJ_D___R_), CO_TPARA_STORE, (CO_DATA)1);
+        od_add(&b, CO_KEY(0x1010, 1, CO_OBJ_____RW), CO_TPARA_STORE, (CO_DATA)&NcPara);
+        memcpy(&DRV.nvm[0x40], &HbTime, sizeof HbTime);          /* the image the node was shipped with */
+    }
     if (NC.csdo) {
         CsdoCobTx = 0x600; CsdoCobRx = 0x580; CsdoNode = 5;   /* the client adds the server node id: requests on 605h, responses on 585h */
         od_add(&b, CO_KEY(0x1280, 0, CO_OBJ_D___R_), CO_TUNSIGNED8, (CO_DATA)3);
@@ -167,7 +177,7 @@ static void nc_prepare(void)
     W_REG(SyncId); W_REG(SyncCycle); W_REG(EmcyId); W_REG(HistNum); W_REG(Hist);
     W_REG(RpCob); W_REG(TpCob); W_REG(RpMap); W_REG(TpMap); W_REG(RpType); W_REG(TpType); W_REG(RpNum); W_REG(TpNum); W_REG(TpInh); W_REG(TpEvt);
     W_REG(A8); W_REG(P8); W_REG(B8); W_REG(A16); W_REG(P16); W_REG(W16); W_REG(A32); W_REG(P32); W_REG(N32); W_REG(R32); W_REG(W32);
-    W_REG(CsdoCobTx); W_REG(CsdoCobRx); W_REG(CsdoNode); W_REG(Csdo2CobTx); W_REG(Csdo2CobRx); W_REG(Csdo2Node); W_REG(SsdoRx); W_REG(SsdoTx); W_REG(DomData); W_REG(DomObj);
+    W_REG(NcPara); W_REG(HbDefault); W_REG(CsdoCobTx); W_REG(CsdoCobRx); W_REG(CsdoNode); W_REG(Csdo2CobTx); W_REG(Csdo2CobRx); W_REG(Csdo2Node); W_REG(SsdoRx); W_REG(SsdoTx); W_REG(DomData); W_REG(DomObj);
     for (i = 0; i < CO_SSDO_N; i++) w_nohash_range(&Node.Sdo[i].Frm, sizeof Node.Sdo[i].Frm);
     /* these harnesses only use expedited transfers: the server is idle between steps and the multiplexer / abort
      * override latched from the last request are overwritten by the next one before they are read */
